@@ -260,7 +260,9 @@ MUTANTS += [
     ("revert_ensemble_load", "C09", "REVERT", "restores chain_length and failed_updates", ""),
     ("revert_get_interval", "C14", "REVERT", "get_interval with a requested sample count", ""),
     ("revert_run_for_zero", "C15", "REVERT", "already exhausted time budget", ""),
-    ("revert_run_for_slow", "C15", "REVERT", "longer than a second", ""),
+    # (52390bf can no longer be reverted as a patch - 3b9160e rewrote the same line; this is its effect on the current tree)
+    ("revert_run_for_slow", "C15", "inference/mcmc/base.py", "                update_interval = max(1, int(steps_taken / elapsed))\n",
+     "                update_interval = int(steps_taken / elapsed)\n"),
     ("revert_gibbs_limits", "C09", "REVERT", "no longer cancel each other", ""),
     ("revert_ensemble_int_start", "C03", "REVERT", "converts integer starting positions", ""),
     ("revert_run_for_coarse_clock", "C15", "REVERT", "clock has not moved between two readings", ""),
